@@ -390,6 +390,24 @@ SITES = [
 ]
 
 
+def _resolved(order, at, e):
+    """`e` with a template variable replaced by the value of the closest `{% set %}` that precedes item `at` in document order
+    (`order`: the items in document order); a name that is never set stays a name."""
+    for _ in range(4):
+        if e is None or e[0] != "name":
+            break
+        val = None
+        for it in order:
+            if it is at:
+                break
+            if it[0] == "set" and it[1] == e:
+                val = it[2]
+        if val is None:
+            break
+        e = val
+    return e
+
+
 def _r5(ctx, pkg):
     n = 0
     for solver, rel, methods, funcs in SITES:
@@ -404,16 +422,14 @@ def _r5(ctx, pkg):
                     ctx.missing("R5", key, (rel, 0), f"function {fname} not found")
                     continue
                 n += 1
-                cur = None
                 seq = []      # (kind, components, offset)
                 for it, off in its:
-                    if it[0] == "set" and it[1] == ("name", "components"):
-                        cur = it[2]
-                    elif it[0] == "for":
+                    if it[0] == "for":
                         base, fs = J.unfilter(it[2])
-                        if fs and fs[0][0] == "collect_variable_items" and base == ("name", "components"):
-                            seq.append((fs[0][1][0][1], cur, off, it))
-                        elif J.path(base) == exprs:
+                        if fs and fs[0][0] == "collect_variable_items" and fs[0][1] and fs[0][1][0][0] == "const":
+                            # the component list by ROLE: whatever is piped into collect_variable_items, a `{% set %}` name resolved
+                            seq.append((fs[0][1][0][1], _resolved(sk.marks, it, base), off, it))
+                        elif J.path(_resolved(sk.marks, it, base)) == exprs:
                             seq.append(("exprs", None, off, it))
                 kinds = [s[0] for s in seq]
                 ok_order = kinds == ["params", "deriveds", "exprs"]
@@ -439,15 +455,14 @@ def _r5(ctx, pkg):
     for rel, kind, pat in ((DATA_H, "params", r"double"), (CONST_H, "constants", r"extern"), (CONST_C, "constants", r"double")):
         ctx.saw(rel)
         items = J.flatten(ctx.tree, rel, {})
-        cur = None
+        order = [it for it, st in J.walk_items(items)]
         hit = False
-        for it, st in J.walk_items(items):
-            if it[0] == "set" and it[1] == ("name", "components"):
-                cur = it[2]
+        for it in order:
             if it[0] == "for":
                 base, fs = J.unfilter(it[2])
-                if fs and fs[0][0] == "collect_variable_items" and fs[0][1][0] == ("const", kind):
+                if fs and fs[0][0] == "collect_variable_items" and fs[0][1] and fs[0][1][0] == ("const", kind):
                     hit = True
+                    cur = _resolved(order, it, base)
                     ctx.check(cur == RCHC, "R5", f"{rel.split('/')[-1]}:{kind}-components", (rel, it[5]),
                               f"{kind} are collected over reactions + grains + heating + cooling", expected=J.show(RCHC), found=J.show(cur) if cur else "unset")
         if not hit:
@@ -633,6 +648,8 @@ MUTANTS = [
      "new": "    {% set components = network.reactions + network.grains -%}\n    {% for key, value in components | collect_variable_items(\"deriveds\") -%}\n        realtype {{ key }} = {{ value }};\n    {% endfor %}\n\n#if (NHEATPROCS || NCOOLPROCS)\n    if (mu < 0) mu = GetMu(y);", "rules": ["R5"]},
 ]
 BENIGN = [
+    {"name": "component-list-variable-renamed", "file": RATES, "old": "components", "new": "providers", "count": 12},
+    {"name": "component-list-inlined", "file": RATES, "old": "    {% set components = network.reactions + network.grains -%}\n    {% for key, _ in components | collect_variable_items(\"params\") -%}", "new": "    {% for key, _ in (network.reactions + network.grains) | collect_variable_items(\"params\") -%}"},
     {"name": "leeds-register-in-both-arms", "file": "naunet/reactions/leedsreaction.py", "old": '        self.register("radiation_field", ("G0", 1.0, vt.param))\n', "new": '        if self.rtype == 4:\n            self.register("radiation_field", ("G0", 1.0, vt.param))\n        else:\n            self.register("radiation_field", ("G0", 1.0, vt.param))\n'},
     {"name": "unrelated-registers-reordered", "file": HH, "old": '        self.register("habing_field_photon_number", ("habing", 1e8, vt.constant))\n        self.register("cosmic_ray_induced_photon_number", ("crphot", 1e4, vt.constant))\n', "new": '        self.register("cosmic_ray_induced_photon_number", ("crphot", 1e4, vt.constant))\n        self.register("habing_field_photon_number", ("habing", 1e8, vt.constant))\n'},
 ]
